@@ -1,5 +1,65 @@
-/- C09 — property theorems (to be written). -/
-import SoundeventModel.Basic
+/-
+  C09 — Evaluation metrics are what their terms say, in all four tasks.
+  Property theorems only (helper lemmas live in Proofs/Lemmas/Metrics.lean).
+-/
+import SoundeventModel.Metrics
 namespace SE.Proofs.C09
+open SE SE.Metrics
+
+/-- a table that passes the two regenerated checks has pairwise distinct labels and names,
+    and every row carries the name and the label of the term that names its function -/
+theorem C09_table_sound (t : List Row) (hd : TermsDistinct t = true) (hm : TermMatchesFunction t = true) :
+    (t.map (·.termLabel)).Nodup ∧ (t.map (·.termName)).Nodup ∧
+    ∀ r ∈ t, ∃ m : Metric, m.fn = r.fn ∧ r.termName = m.termName ∧ r.termLabel = m.label := by
+  unfold TermsDistinct at hd
+  simp only [Bool.and_eq_true, decide_eq_true_eq] at hd
+  refine ⟨hd.1, hd.2, ?_⟩
+  intro r hr
+  unfold TermMatchesFunction at hm
+  rw [List.all_eq_true] at hm
+  have h := hm r hr
+  cases hf : Metric.ofFn r.fn with
+  | none => simp [hf] at h
+  | some m =>
+    simp only [hf, Bool.and_eq_true, beq_iff_eq] at h
+    refine ⟨m, ?_, h.1, h.2⟩
+    unfold Metric.ofFn at hf
+    have := List.find?_some hf
+    simpa using this
+
+/-- the function name identifies the metric kind -/
+private theorem ofFn_fn (m : Metric) : Metric.ofFn m.fn = some m := by cases m <;> decide
+
+/-- when the code's table lists the same functions as the model's driver and passes
+    `TermMatchesFunction`, the labels (and names) the code attaches are exactly the ones the
+    model attaches, in the same order -/
+theorem C09_labels_of_table (task : Task) (lvl : Level) (t : List Row)
+    (ha : TableAgrees task lvl t = true) (hm : TermMatchesFunction t = true) :
+    t.map (·.termLabel) = (taskMetrics task lvl).map (·.label) := by
+  unfold TableAgrees at ha
+  have ha' : t.map (·.fn) = (taskMetrics task lvl).map (·.fn) := by simpa using ha
+  clear ha
+  generalize taskMetrics task lvl = ms at ha'
+  unfold TermMatchesFunction at hm
+  induction t generalizing ms with
+  | nil => cases ms with
+    | nil => rfl
+    | cons m ms => simp at ha'
+  | cons r t ih =>
+    cases ms with
+    | nil => simp at ha'
+    | cons m ms =>
+      simp only [List.map_cons, List.cons.injEq] at ha'
+      simp only [List.all_cons, Bool.and_eq_true] at hm
+      have h1 := hm.1
+      rw [ha'.1, ofFn_fn] at h1
+      simp only [Bool.and_eq_true, beq_iff_eq] at h1
+      simp only [List.map_cons, List.cons.injEq]
+      exact ⟨h1.2, ih hm.2 ms ha'.2⟩
+
+/-- the model's own driver tables have pairwise distinct labels at every level of every task -/
+theorem C09_model_tables_distinct (task : Task) (lvl : Level) :
+    ((taskMetrics task lvl).map (·.label)).Nodup := by
+  cases task <;> cases lvl <;> decide
 
 end SE.Proofs.C09
